@@ -111,6 +111,7 @@ CHECKS["C01"] = {
     "parts": [
         {"part": "adversarial", "pkg": ROOT, "test": "TestVerif_C01_Adversarial", "quick": 6000, "thorough": 40000},
         {"part": "cancelled", "pkg": ROOT, "test": "TestVerif_C01_Cancelled", "quick": 4500, "thorough": 30000},
+        {"part": "stalled-events", "pkg": ROOT, "test": "TestVerif_C01_StalledEvents", "quick": 3000, "thorough": 25000},
     ],
 }
 CHECKS["C02"] = {
